@@ -22,7 +22,8 @@ RULE = ("v1: rows = the two recorded CSV days (sampled, optionally with one toke
 TRUSTED = [
     "v1 is Decimal arithmetic: the driver runs the model under round-half-even to 35 digits and every number is compared exactly; theorems are for the exact rational semantics",
     "v2 is float arithmetic: theorems are about the exact rational semantics of the same formulas (one model text, instantiated at Rat and at Float); the driver runs IEEE "
-    "binary64 through Lean Float (+ - x / bit-identical with CPython) and is compared at 1e-12 relative; x ** 2 is computed as x*x, other exponents by libm pow on both sides (oracle)",
+    "binary64 through Lean Float (+ - x / bit-identical with CPython) and is compared at 1e-12 relative; diffUsd ** exponent is the platform libm's pow on both sides "
+    "(Lean Float.pow and CPython float.__pow__ both call C pow; glibc's pow(x, 2.0) is not always x*x, so the driver must not simplify it) - an oracle, not verified",
     "the Vault reference rule is my transcription of gmx-contracts VaultUtils.getFeeBasisPoints / Vault.getTargetUsdgAmount (Lean `vaultFeeBps`, cross-checked on every "
     "sweep case against an independent Python transcription)",
 ]
@@ -441,7 +442,18 @@ def run(ctx: Ctx):
     v1_roundtrips(ctx, ctx.scale(500, 10000))
     v2_sequences(ctx, ctx.scale(900, 15000))
     v2_roundtrips(ctx, ctx.scale(700, 12000))
-    ctx.note("recorded_rows_available", G.recorded_rows() is not None and len(G.recorded_rows()))
+    rec = G.recorded_rows()
+    ctx.note("recorded_rows_available", rec is not None and len(rec))
+    if rec is not None:
+        # the accounting identity the generated rows are built on, checked on every recorded row
+        worst = F(0)
+        for i in range(0, len(rec), 1 if ctx.thorough else 7):
+            r = rec.iloc[i]
+            ident = (F(r["aum"]) / G.E30) / (F(r["glp"]) / G.E18)
+            worst = max(worst, abs(F(r["glp_price"]) - ident) / ident)
+        ctx.note("recorded_glp_price_identity_max_rel_dev", float(worst))
+        if worst > F(1, 10 ** 12):
+            ctx.disagree(f"recorded data: glp_price deviates from (aum/1e30)/(glp/1e18) by {float(worst)!r} relative", {"world": None})
 
 
 def replay(ctx: Ctx, case) -> bool:
